@@ -130,11 +130,17 @@ impl<'tree, D: Doc> MetaVarEnv<'tree, D> {
         ],
       );
     }
-    for (var_id, candidate) in &self.single_matched {
-      if let Some(m) = var_matchers.get(var_id) {
-        if m.match_node_with_env(candidate.clone(), &mut env).is_none() {
-          return false;
-        }
+    // a constraint can bind further variables that later constraints see,
+    // so check them in a fixed order instead of the hash map's
+    let mut constrained: Vec<_> = self
+      .single_matched
+      .iter()
+      .filter_map(|(var_id, candidate)| Some((var_id, candidate, var_matchers.get(var_id)?)))
+      .collect();
+    constrained.sort_unstable_by_key(|(var_id, _, _)| *var_id);
+    for (_, candidate, m) in constrained {
+      if m.match_node_with_env(candidate.clone(), &mut env).is_none() {
+        return false;
       }
     }
     if let Cow::Owned(env) = env {
